@@ -86,6 +86,7 @@ func (g c18graph) String() string {
 type c18cfg struct {
 	hasInit, initErr, hasSvc []bool
 	names                    int   // naming scheme (c18NameS)
+	slices                   int   // how AddDependency's variadic argument is built: 0 fresh slice per call, 1 sub-slices of one flat table, 2 one reused buffer
 	opts                     []int // per module: 0 no option, 1 UserInvisibleModule, 2 UserInvisibleTargetableModule, 3 = 1 then 2, 4 = 2 then 1
 }
 
@@ -117,7 +118,30 @@ func (c c18cfg) StringO() string {
 		}
 		o = sb.String()
 	}
-	return c.String() + ";" + o + ";" + strconv.Itoa(c.names)
+	return c.String() + ";" + o + ";" + c.namesS()
+}
+
+// namesS: the naming scheme and, when not the default, the slice mode (the model ignores both)
+func (c c18cfg) namesS() string {
+	if c.slices == 0 {
+		return strconv.Itoa(c.names)
+	}
+	return strconv.Itoa(c.names) + "." + strconv.Itoa(c.slices)
+}
+
+// c18callerCheck reports whether the slices the caller passed to AddDependency still hold what the caller put there
+type c18callerCheck struct{ flat, want []string }
+
+func (c *c18callerCheck) String() string {
+	if c == nil || c.flat == nil {
+		return "-"
+	}
+	for i := range c.want {
+		if c.flat[i] != c.want[i] {
+			return "modified"
+		}
+	}
+	return "ok"
 }
 
 var errC18Init = errors.New("scripted init error")
@@ -136,11 +160,11 @@ func c18AddClass(err error) string {
 
 // c18Build registers n modules and adds the dependencies with the given calls (module, deps...).
 // mkSvc(i) builds the service returned by module i's initFn (nil = no service).
-func c18Build(n int, cfg c18cfg, calls [][]int, initLog *[]int, mkSvc func(i int) services.Service) (*modules.Manager, []string) {
+func c18Build(n int, cfg c18cfg, calls [][]int, initLog *[]int, mkSvc func(i int) services.Service) (*modules.Manager, []string, *c18callerCheck) {
 	return c18BuildL(log.NewNopLogger(), n, cfg, calls, initLog, mkSvc)
 }
 
-func c18BuildL(logger log.Logger, n int, cfg c18cfg, calls [][]int, initLog *[]int, mkSvc func(i int) services.Service) (*modules.Manager, []string) {
+func c18BuildL(logger log.Logger, n int, cfg c18cfg, calls [][]int, initLog *[]int, mkSvc func(i int) services.Service) (*modules.Manager, []string, *c18callerCheck) {
 	mm := modules.NewManager(logger)
 	for i := 0; i < n; i++ {
 		i := i
@@ -171,14 +195,44 @@ func c18BuildL(logger log.Logger, n int, cfg c18cfg, calls [][]int, initLog *[]i
 		}
 	}
 	var res []string
-	for _, c := range calls {
-		ds := make([]string, len(c)-1)
-		for j, d := range c[1:] {
-			ds[j] = c18NameS(cfg.names, d)
+	cc := &c18callerCheck{}
+	switch cfg.slices {
+	case 1:
+		// all dependencies in one flat table owned by the caller; each call passes a sub-slice of it (whose spare
+		// capacity covers the later calls' entries); the caller never writes to the table again
+		for _, c := range calls {
+			for _, d := range c[1:] {
+				cc.flat = append(cc.flat, c18NameS(cfg.names, d))
+			}
 		}
-		res = append(res, c18AddClass(mm.AddDependency(c18NameS(cfg.names, c[0]), ds...)))
+		cc.flat = append(cc.flat, "", "")[:len(cc.flat)] // never nil, a little spare capacity at the end
+		cc.want = append([]string(nil), cc.flat...)
+		at := 0
+		for _, c := range calls {
+			k := len(c) - 1
+			res = append(res, c18AddClass(mm.AddDependency(c18NameS(cfg.names, c[0]), cc.flat[at:at+k]...)))
+			at += k
+		}
+	case 2:
+		// one scratch buffer reused by the caller for every call
+		buf := make([]string, 0, 4)
+		for _, c := range calls {
+			buf = buf[:0]
+			for _, d := range c[1:] {
+				buf = append(buf, c18NameS(cfg.names, d))
+			}
+			res = append(res, c18AddClass(mm.AddDependency(c18NameS(cfg.names, c[0]), buf...)))
+		}
+	default:
+		for _, c := range calls {
+			ds := make([]string, len(c)-1)
+			for j, d := range c[1:] {
+				ds[j] = c18NameS(cfg.names, d)
+			}
+			res = append(res, c18AddClass(mm.AddDependency(c18NameS(cfg.names, c[0]), ds...)))
+		}
 	}
-	return mm, res
+	return mm, res, cc
 }
 
 // calls that insert the edges of g: modules in random order, each module's deps possibly split over two calls.
@@ -303,11 +357,11 @@ func c18InitCaseCalls(e *env, g c18graph, cfg c18cfg, targets []int, calls [][]i
 	tr.step(ints(targets))
 	defer tr.done()
 	var initLog []int
-	mm, res := c18Build(g.n, cfg, calls, &initLog, func(i int) services.Service { return services.NewIdleService(nil, nil) })
+	mm, res, caller := c18Build(g.n, cfg, calls, &initLog, func(i int) services.Service { return services.NewIdleService(nil, nil) })
 	for _, x := range res {
 		if x != "ok" {
 			// an edge of a DAG was rejected: report it as an observation of its own
-			e.emit("C18.init", ga.String()+";"+cfg.StringO(), ints(targets), "-", "add-rejected:"+x, "-", "-", "-", "-", "-", "-", "-")
+			e.emit("C18.init", ga.String()+";"+cfg.StringO(), ints(targets), "-", "add-rejected:"+x, "-", "-", "-", "-", "-", "-", "-", caller.String())
 			return
 		}
 	}
@@ -335,7 +389,7 @@ func c18InitCaseCalls(e *env, g c18graph, cfg c18cfg, targets []int, calls [][]i
 	if mm.IsUserVisibleModule("nosuch") || mm.IsTargetableModule("nosuch") || mm.IsModuleRegistered("nosuch") || (g.n > 0 && !mm.IsModuleRegistered(c18NameS(cfg.names, 0))) {
 		flags += ";unregistered-module-flags"
 	}
-	e.emit("C18.init", ga.String()+";"+cfg.StringO(), ints(targets), log1, result, keys, flags, depsBefore, depsAfter, log2, result2, keys2)
+	e.emit("C18.init", ga.String()+";"+cfg.StringO(), ints(targets), log1, result, keys, flags, depsBefore, depsAfter, log2, result2, keys2, caller.String())
 }
 
 // all labelled DAGs on n nodes: deps[i] ∋ j means i depends on j
@@ -423,6 +477,9 @@ func c18RandomCfg(r *rng, n int, allowErr bool) c18cfg {
 	c := c18cfg{hasInit: make([]bool, n), initErr: make([]bool, n), hasSvc: make([]bool, n)}
 	if r.chance(2, 3) {
 		c.names = 1 + r.intn(200)
+	}
+	if r.chance(1, 2) {
+		c.slices = 1 + r.intn(2)
 	}
 	if r.chance(1, 2) {
 		c.opts = make([]int, n)
@@ -700,6 +757,9 @@ func c18RandomAddCase(r *rng) c18addCase {
 
 func runC18(e *env) {
 	trackEnv = e
+	// the graphs here are small: a runaway recursion in the library ends quickly (and is attributed to the
+	// case in flight) instead of growing a stack to the default 1 GB limit
+	debug.SetMaxStack(64 << 20)
 	only := ""
 	if len(e.args) > 0 {
 		only = e.args[0]
@@ -724,6 +784,7 @@ func runC18(e *env) {
 					}
 					cfg := c18FullCfg(n)
 					cfg.names = r.intn(6) * r.intn(7) // 0 (plain names) about a third of the time
+					cfg.slices = r.intn(2)            // the reused buffer (mode 2) comes with the random graphs below
 					c18InitCase(e, g, cfg, s, r)
 					if len(s) > 1 {
 						c18InitCase(e, g, cfg, c18Shuffled(r, s), r)
@@ -745,6 +806,7 @@ func runC18(e *env) {
 				for f := 0; f < n; f++ {
 					cfg := c18FullCfg(n)
 					cfg.initErr[f] = true
+					cfg.slices = r.intn(2) // the reused buffer (mode 2) comes with the random graphs below
 					c18InitCase(e, g, cfg, all, r)
 					c18InitCase(e, g, cfg, []int{n - 1 - f%n}, r)
 				}
